@@ -110,6 +110,12 @@ theorem ctx_pos (d : Doc) (i : Nat) : (d.ctx i).pos = specPos d i := by
     rw [idxOf_filter_range' _ d.length 0 i (Nat.zero_le _) (by omega) (by simp [h])]
     simp
 
+/-- `specPos` through the parent's child list: the index of `i` among the children of its parent that carry its name -/
+theorem specPos_eq_idx (d : Doc) (i p : Nat) (h : d.parent i = some p) :
+    specPos d i = idxOf i ((d.children p).filter (fun c => d.name c = d.name i)) + 1 := by
+  rw [← ctx_pos]
+  simp [Doc.ctx, Doc.sameNamed, h]
+
 theorem ctx_last (d : Doc) (i : Nat) : (d.ctx i).last = specLast d i := by
   unfold Doc.ctx specLast
   cases h : d.parent i with
